@@ -109,7 +109,8 @@ inline size_t text_len(Rng& r, size_t small) {
 
 inline CDNS::BlockParameters block_parameters(Rng& r, bool rich) {
     static const uint64_t tps[] = {1, 2, 1000, 1000000, 1000000000};
-    static const uint64_t maxi[] = {0, 1, 2, 3, 5, 8, 10000};
+    // (the values from 2^32 up: a limit that only fits 64 bits must not be narrowed - such a block is never full)
+    static const uint64_t maxi[] = {0, 1, 2, 3, 5, 8, 10000, 0, 1, 2, 3, 5, 8, 10000, 4294967296ULL, 4294967298ULL, 0xffffffffffffffffULL};
     CDNS::BlockParameters bp;
     auto& sp = bp.storage_parameters;
     sp.ticks_per_second = r.chance(1, 6) ? r.range(1, 1000000000) : r.pick(tps);
@@ -185,7 +186,7 @@ inline Swarm swarm(uint64_t seed, Profile prof) {
         case P_HINTS: s.density_pm = 1000; s.w_rotate = 0; break;
         case P_ROTATE: s.w_rotate = 8; s.w_write = 3; s.w_add = nlate ? 2 : 0; s.w_set = 2; break;
         case P_FLUSH: {
-            static const uint64_t m[] = {0, 1, 2, 3};
+            static const uint64_t m[] = {0, 1, 2, 3, 0, 1, 2, 3, 0, 1, 2, 3, 4294967297ULL};
             for (auto& bp : s.sets) bp.storage_parameters.max_block_items = r.pick(m);
             for (auto& bp : s.late_sets) bp.storage_parameters.max_block_items = r.pick(m);
             s.w_set = 3; s.w_ctr = 4; s.pool = (unsigned)r.range(1, 3);
